@@ -4,6 +4,8 @@
 (*  FamA  filters (A0 = core pairs, never sampled): every operation that takes a filter x filter lists         *)
 (*        (<=2 leaves, or one NOT/AND/OR over leaves) x how the list is       *)
 (*        joined x how string literals are quoted                             *)
+(*  FamX  signed operands (+2, -2, +"..", -".."), FamT text after a complete     *)
+(*        clause (both never sampled)                                          *)
 (*  FamB  the other parameters of reads (table spelling, column list, sort,   *)
 (*        limit, start): all single deviations and all pairs of deviations    *)
 (*        from the defaults with at most one adversarial atom; FamBwr = table *)
@@ -18,9 +20,10 @@ CONSTANTS Fams,           \* subset of {"A1","A2","A3","B","C"}
 VARIABLE req
 
 Base(op) == [op |-> op, tbl |-> "plain", flt |-> <<>>, join |-> IF op \in {"txrows", "txdelete", "txupdate", "txinsert"} THEN "array" ELSE "comma",
-             qs |-> "dq", cols |-> <<>>, sort |-> "-", limit |-> "-", start |-> "-",
+             qs |-> "dq", cols |-> <<>>, sort |-> "-", limit |-> "-", start |-> "-", trail |-> "-",
              setv |-> IF op \in {"update", "insert", "txupdate", "txinsert"} THEN Str.b ELSE <<>>, key |-> "name"]
 
+LI(op, v) == LeafF([op |-> op, col |-> "id", iv |-> v, sv |-> <<>>, sg |-> ""])
 FilterOps == {"read", "aread", "txrows", "delete", "update", "txdelete", "txupdate"}
 Joins(op) == IF op \in {"txrows", "txdelete", "txupdate"} THEN {"array", "comma"} ELSE {"comma", "params"}
 QStyles   == {"dq", "sq", "bt"}
@@ -33,11 +36,21 @@ D2 == {<<BinF(k, x, y)>> : k \in {"and", "or"}, x \in Leaf, y \in Leaf} \cup {<<
 FamA1 == {[[Base(op) EXCEPT !.flt = f] EXCEPT !.qs = q] : op \in FilterOps, f \in L1 \cup {<<>>}, q \in QStyles}
 FamA2 == UNION {{[[[Base(op) EXCEPT !.flt = f] EXCEPT !.join = j] EXCEPT !.qs = q] : f \in (IF q = "dq" THEN L2 ELSE L2s), j \in Joins(op)}
                 : op \in FilterOps, q \in QStyles}
-FamA3 == {[Base(op) EXCEPT !.flt = f] : op \in FilterOps, f \in D2}
+FamA3 == {[Base(op) EXCEPT !.flt = f] : op \in {"read", "aread", "delete", "txupdate"}, f \in D2}
 (* always run, also in the sampled tier: every pair of string comparisons, on one read, one delete and one task *)
-FamA0 == {[Base(op) EXCEPT !.flt = f] : op \in {"read", "delete", "txupdate"}, f \in L2s}
+CoreOps == {"read", "delete", "txupdate"}
+SY(a) == LeafF([op |-> "EQ", col |-> "name", iv |-> 0, sv |-> a, sg |-> ""])
+FamA0 == {[Base(op) EXCEPT !.flt = f] : op \in CoreOps, f \in L2s}
+         \cup {[[Base("read") EXCEPT !.flt = f] EXCEPT !.qs = "sq"] : f \in L2s}
+         \cup {[[Base(op) EXCEPT !.flt = <<LeafF(x)>>] EXCEPT !.qs = q] : op \in CoreOps, x \in StrLeaf, q \in QStyles}
+(* signed operands: alone, next to an ordinary comparison (either side), and inside NOT/AND/OR *)
+XShapes(x) == {<<LeafF(x)>>, <<NotF(x)>>} \cup UNION {{<<LeafF(x), y>>, <<y, LeafF(x)>>, <<BinF("and", x, y.l)>>, <<BinF("or", y.l, x)>>}
+                                                      : y \in {SY(Str.a)}}
+FamX == {[[Base(op) EXCEPT !.flt = f] EXCEPT !.qs = q] : op \in CoreOps, f \in UNION {XShapes(x) : x \in XLeaf}, q \in {"dq", "sq"}}
+(* text after a complete clause *)
+FamT == {[[[Base(op) EXCEPT !.flt = f] EXCEPT !.qs = q] EXCEPT !.trail = t] :
+            op \in FilterOps, f \in {<<LI("EQ", 2)>>, <<SY(Str.a)>>, <<SY(Str.qe)>>}, q \in {"dq", "sq"}, t \in Trails}
 
-LI(op, v) == LeafF([op |-> op, col |-> "id", iv |-> v, sv |-> <<>>])
 BFlt  == {<<>>, <<LI("GT", 2)>>}
 ColSeqs == {<<>>, <<"id">>, <<"name">>, <<"name", "id">>} \cup {<<c>> : c \in AdvCol} \cup {<<"name", c>> : c \in AdvCol}
 Adv(r) == (IF r.tbl \in AdvTbl THEN 1 ELSE 0) + (IF Range(r.cols) \cap AdvCol # {} THEN 1 ELSE 0) + (IF r.sort \in AdvSort THEN 1 ELSE 0)
@@ -46,19 +59,19 @@ Dev(r) == (IF r.tbl # "plain" THEN 1 ELSE 0) + (IF r.cols # <<>> THEN 1 ELSE 0) 
           + (IF r.limit # "-" THEN 1 ELSE 0) + (IF r.start # "-" THEN 1 ELSE 0)
 FamBread == {r \in [op : {"read", "aread"}, tbl : GoodTbl \cup AdvTbl, flt : BFlt, join : {"comma"}, qs : {"dq"},
                    cols : ColSeqs, sort : {"-"} \cup GoodSort \cup AdvSort, limit : {"-"} \cup NumLimit \cup AdvLimit,
-                   start : {"-"} \cup NumStart \cup AdvStart, setv : {<<>>}, key : {"name"}] : Dev(r) <= 2 /\ Adv(r) <= 1}
+                   start : {"-"} \cup NumStart \cup AdvStart, trail : {"-"}, setv : {<<>>}, key : {"name"}] : Dev(r) <= 2 /\ Adv(r) <= 1}
 FamBtx   == {r \in [op : {"txrows"}, tbl : GoodTbl \cup AdvTbl, flt : BFlt, join : {"array"}, qs : {"dq"},
-             cols : ColSeqs, sort : {"-"}, limit : {"-"}, start : {"-"}, setv : {<<>>}, key : {"name"}] : Adv(r) <= 1}
+             cols : ColSeqs, sort : {"-"}, limit : {"-"}, start : {"-"}, trail : {"-"}, setv : {<<>>}, key : {"name"}] : Adv(r) <= 1}
 FamBwr   == {[[Base(op) EXCEPT !.tbl = t] EXCEPT !.flt = <<LI("EQ", 2)>>] : op \in WriteOps, t \in GoodTbl \cup AdvTbl}
 FamB == FamBread \cup FamBtx
 
-SLeaf(a) == LeafF([op |-> "EQ", col |-> "name", iv |-> 0, sv |-> a])
+SLeaf(a) == SY(a)
 FamC == {[[[Base(op) EXCEPT !.setv = v] EXCEPT !.key = k] EXCEPT !.flt = f] :
             op \in {"update", "txupdate"}, v \in StrAtoms, k \in GoodKey \cup AdvKey, f \in {<<LI("EQ", 2)>>, <<SLeaf(Str.qe)>>, <<>>}}
         \cup {[[Base(op) EXCEPT !.setv = v] EXCEPT !.key = k] : op \in {"insert", "txinsert"}, v \in StrAtoms, k \in GoodKey \cup AdvKey}
 
 Pick(S) == IF Sample = 0 \/ Cardinality(S) <= Sample THEN S ELSE RandomSubset(Sample, S)
-Requests == (IF "A0" \in Fams THEN FamA0 \cup FamBwr ELSE {}) \cup (IF "A1" \in Fams THEN Pick(FamA1) ELSE {}) \cup (IF "A2" \in Fams THEN Pick(FamA2) ELSE {})
+Requests == (IF "A0" \in Fams THEN FamA0 \cup FamBwr \cup FamX \cup FamT ELSE {}) \cup (IF "A1" \in Fams THEN Pick(FamA1) ELSE {}) \cup (IF "A2" \in Fams THEN Pick(FamA2) ELSE {})
             \cup (IF "A3" \in Fams THEN Pick(FamA3) ELSE {}) \cup (IF "B" \in Fams THEN Pick(FamB) ELSE {})
             \cup (IF "C" \in Fams THEN FamC ELSE {})
 
